@@ -77,6 +77,7 @@ struct StreamL {
     progress: i64,
     resp: i64,
     starved: bool,
+    up_total: i64,
 }
 
 #[derive(Clone, Debug)]
@@ -91,7 +92,18 @@ struct EpCfg {
     pad: u8,
     /// stall deadline of the listener (h2_stream_idle_timeout), for the reaper
     reap_after: Option<Duration>,
+    /// do not pace bursts of small frames (scenarios that reproduce the loop-budget finding)
+    unpaced: bool,
+    /// the cooperative client of a backend scenario: what sozu owes it depends on the checked backend peers'
+    /// schedules, so it never records a stall itself (the backend endpoints do)
+    no_stall: bool,
+    /// set by another endpoint of the scenario when waiting on is pointless
+    abort: Option<Arc<AtomicBool>>,
 }
+
+/// A paced peer lets sozu go idle (PING round trip) before it has sent this many frames in a row: Mux::ready
+/// closes a session that needs more than 10 000 loop iterations in one wake-up (open finding LoopBudget).
+const PACE_FRAMES: u64 = 1000;
 
 #[derive(Debug, PartialEq, Clone, Copy)]
 enum Wait {
@@ -99,6 +111,8 @@ enum Wait {
     Stall,
     Inconclusive,
     Closed,
+    /// sozu's byte stream stopped being a sequence of frames within the limits
+    Garbled,
 }
 
 struct Ep<S: Read + Write + SetTimeout> {
@@ -130,6 +144,11 @@ struct Ep<S: Read + Write + SetTimeout> {
     notes: Vec<String>,
     /// for the backend role: response sizes are taken from the request path
     auto_respond: bool,
+    /// frames sent since sozu was last seen idle
+    burst: u64,
+    /// largest SETTINGS_MAX_FRAME_SIZE this endpoint has ever advertised (16 384 before any)
+    max_frame_hi: i64,
+    garbled: bool,
 }
 
 fn hdr_size_update(block: &[u8]) -> i64 {
@@ -186,6 +205,9 @@ impl<S: Read + Write + SetTimeout> Ep<S> {
             pings: 0,
             notes: Vec::new(),
             auto_respond: !sozu_is_server,
+            burst: 0,
+            max_frame_hi: 16_384,
+            garbled: false,
         };
         e.log(json!({"ev": "reset", "role": if sozu_is_server { "server" } else { "client" }, "label": label, "scen": scen,
                      "recvConn": recv_conn}));
@@ -207,19 +229,28 @@ impl<S: Read + Write + SetTimeout> Ep<S> {
         if let Some(w) = init_win { kv.push((S_INITIAL_WINDOW_SIZE, w as u32)); s.init_win = w; }
         if let Some(f) = max_frame { kv.push((S_MAX_FRAME_SIZE, f as u32)); s.max_frame = f; }
         self.last_sent = s;
+        self.max_frame_hi = self.max_frame_hi.max(s.max_frame);
         self.pend.push_back(s);
         self.log(json!({"ev": "PeerSettings", "initWin": s.init_win, "maxFrame": s.max_frame, "maxStreams": s.max_streams, "tbl": s.tbl}));
+        self.burst += 1;
         self.c.send(&Frame::settings(&kv));
     }
 
     fn send_wu(&mut self, sid: u32, n: i64) {
+        let f = self.note_wu(sid, n);
+        self.c.send(&f);
+    }
+
+    /// ledger + log of a WINDOW_UPDATE; the caller writes the frame
+    fn note_wu(&mut self, sid: u32, n: i64) -> Frame {
+        self.burst += 1;
         self.log(json!({"ev": "PeerWU", "sid": sid, "n": n}));
         let illegal = n == 0
             || if sid == 0 { self.conn_win > 0 && n > MAXWIN - self.conn_win } else { self.st.get(&sid).map(|s| s.win > 0 && n > MAXWIN - s.win).unwrap_or(false) };
         if !illegal {
             if sid == 0 { self.conn_win += n; } else if let Some(s) = self.st.get_mut(&sid) { s.win += n; }
         }
-        self.c.send(&Frame::window_update(sid, n as u32));
+        Frame::window_update(sid, n as u32)
     }
 
     /// client-role peer: open a stream asking for `down` bytes, uploading `up`
@@ -231,9 +262,10 @@ impl<S: Read + Write + SetTimeout> Ep<S> {
         let extra: Vec<(&str, &str)> = if up > 0 { vec![("content-length", cl.as_str())] } else { vec![] };
         let block = request_block(&mut self.c.hp, if up > 0 { "POST" } else { "GET" }, "https", "localhost", &path, &extra);
         self.st.insert(sid, StreamL { win: self.eff.init_win, rem: down, sst: Half::Wait, pst: if up == 0 { Half::Done } else { Half::Open },
-                                     up_left: up, adv: self.adv_init, owe: 0, blocked_at: None, progress: 0, resp: 0, starved: false });
+                                     up_left: up, adv: self.adv_init, owe: 0, blocked_at: None, progress: 0, resp: 0, starved: false, up_total: up });
         self.slots.push(sid);
         self.log(json!({"ev": "PeerOpen", "sid": sid, "b": down, "u": up}));
+        self.burst += 1;
         self.c.send(&Frame::headers(sid, block, true, up == 0));
         sid
     }
@@ -245,8 +277,10 @@ impl<S: Read + Write + SetTimeout> Ep<S> {
         if let Some(s) = self.st.get_mut(&sid) {
             s.pst = if u == 0 { Half::Done } else { Half::Open };
             s.up_left = u;
+            s.up_total = u;
         }
         self.log(json!({"ev": "PeerRespond", "sid": sid, "u": u}));
+        self.burst += 1;
         self.c.send(&Frame::headers(sid, block, true, u == 0));
     }
 
@@ -256,17 +290,22 @@ impl<S: Read + Write + SetTimeout> Ep<S> {
         let sids: Vec<u32> = self.st.keys().copied().collect();
         for sid in sids {
             loop {
-                let (left, adv, pst, sst) = { let s = &self.st[&sid]; (s.up_left, s.adv, s.pst, s.sst) };
+                let (left, adv, pst, sst, total) = { let s = &self.st[&sid]; (s.up_left, s.adv, s.pst, s.sst, s.up_total) };
                 if pst != Half::Open || sst == Half::Reset || self.dead { break; }
+                if !self.cfg.unpaced && self.burst >= PACE_FRAMES { return any; }
                 let pad = if self.cfg.pad > 0 && left > 1 { self.cfg.pad as i64 + 1 } else { 0 };
                 let room = adv.min(self.adv_conn).min(SOZU_MAX_FRAME as i64) - pad;
                 if left > 0 && room <= 0 { break; }
-                let n = left.min(room).min(self.cfg.up_chunk as i64).max(0);
+                // a paced peer cuts a body into at most ~200 frames: the loop budget of Mux::ready is per SESSION, and
+                // several connections of one session sending tiny frames at once would use it up together
+                let chunk = if self.cfg.unpaced { self.cfg.up_chunk as i64 } else { (self.cfg.up_chunk as i64).max(total / 200 + 1) };
+                let n = left.min(room).min(chunk).max(0);
                 let es = n == left;
                 let wire = n + pad;
                 let payload = vec![b'u'; n as usize];
                 let f = if pad > 0 { Frame::data_padded(sid, &payload, self.cfg.pad, es) } else { Frame::data(sid, payload, es) };
                 self.log(json!({"ev": "PeerData", "sid": sid, "n": wire, "body": n, "es": es}));
+                self.burst += 1;
                 {
                     let s = self.st.get_mut(&sid).unwrap();
                     s.up_left -= n;
@@ -323,7 +362,7 @@ impl<S: Read + Write + SetTimeout> Ep<S> {
         if new {
             let resp = path.rsplit('/').next().and_then(|p| p.strip_prefix('d')).and_then(|p| p.parse().ok()).unwrap_or(0);
             self.st.insert(sid, StreamL { win: self.eff.init_win, rem: b.max(0), sst: if es { Half::Done } else { Half::Open }, pst: Half::Idle,
-                                         up_left: 0, adv: self.adv_init, owe: 0, blocked_at: None, progress: 0, resp, starved: false });
+                                         up_left: 0, adv: self.adv_init, owe: 0, blocked_at: None, progress: 0, resp, starved: false, up_total: 0 });
             self.slots.push(sid);
         } else if let Some(s) = self.st.get_mut(&sid) {
             if s.sst == Half::Wait { s.sst = if es { Half::Done } else { Half::Open }; }
@@ -453,6 +492,20 @@ impl<S: Read + Write + SetTimeout> Ep<S> {
 
     /// read at most one frame; true if one was processed
     fn pump(&mut self, t: Duration) -> bool {
+        if self.garbled { std::thread::sleep(t.min(Duration::from_millis(5))); return false; }
+        // A frame header that announces more than any maximum frame size this endpoint ever advertised: report it
+        // now (the payload may never come: this is what a desynchronised byte stream looks like) and stop.
+        if self.c.fb.buf.len() >= 9 {
+            let b = &self.c.fb.buf;
+            let len = ((b[0] as i64) << 16) | ((b[1] as i64) << 8) | b[2] as i64;
+            if len > self.max_frame_hi {
+                let (ty, sid) = (b[3], u32::from_be_bytes([b[5], b[6], b[7], b[8]]) & 0x7fff_ffff);
+                if self.hdr.is_some() { self.flush_hdr(false); }
+                self.log(json!({"ev": "SozuBigFrame", "ty": ty, "sid": sid, "n": len}));
+                self.garbled = true;
+                return false;
+            }
+        }
         let got = match self.c.read_frame(t) {
             Some(f) => { self.on_frame(f); true }
             None => false,
@@ -496,12 +549,43 @@ impl<S: Read + Write + SetTimeout> Ep<S> {
     }
 
     /// Let sozu run until it owes nothing (Quiet).  See the module comment for Stall / Inconclusive.
-    fn sync(&mut self, overall: Instant) -> Wait {
+    fn sync(&mut self, overall: Instant) -> Wait { self.wait_quiet(overall, true) }
+
+    /// Pacing: let sozu go idle.  Wait until it owes nothing, make a PING round trip (sozu has then read
+    /// everything we sent and found the socket empty), record `Idle`.
+    fn idle_point(&mut self, overall: Instant) -> Wait {
+        for _ in 0..4 {
+            match self.wait_quiet(overall, false) { Wait::Quiet => {}, w => return w }
+            let before = self.pings;
+            let sent = Instant::now();
+            self.c.send(&Frame::ping(*b"c14-idle", false));
+            while self.pings == before {
+                self.pump(Duration::from_millis(20));
+                if self.garbled { return Wait::Garbled; }
+                if self.c.eof { return Wait::Closed; }
+                if sent.elapsed() >= self.cfg.ping_deadline || Instant::now() > overall { return Wait::Inconclusive; }
+            }
+            if !self.sozu_owes() {
+                self.log(json!({"ev": "Idle"}));
+                self.burst = 0;
+                return Wait::Quiet;
+            }
+        }
+        Wait::Inconclusive
+    }
+
+    fn wait_quiet(&mut self, overall: Instant, upload: bool) -> Wait {
         // (sent at, answered at)
         let mut probe: Option<(Instant, Option<Instant>)> = None;
         let mut last_progress = Instant::now();
         loop {
-            self.try_upload();
+            if upload {
+                if !self.cfg.unpaced && self.burst >= PACE_FRAMES {
+                    match self.idle_point(overall) { Wait::Quiet => {}, w => return w }
+                }
+                self.try_upload();
+            }
+            if self.garbled { return Wait::Garbled; }
             if self.c.eof { return Wait::Closed; }
             if !self.sozu_owes() { return Wait::Quiet; }
             let before = self.pings;
@@ -515,6 +599,8 @@ impl<S: Read + Write + SetTimeout> Ep<S> {
                 continue;
             }
             if Instant::now() > overall { return Wait::Inconclusive; }
+            if self.cfg.abort.as_ref().map(|a| a.load(Ordering::SeqCst)).unwrap_or(false) { return Wait::Inconclusive; }
+            if self.cfg.no_stall { continue; }
             match probe {
                 None => {
                     if last_progress.elapsed() >= self.cfg.ping_after {
@@ -570,7 +656,17 @@ fn run_ops<S: Read + Write + SetTimeout>(ep: &mut Ep<S>, ops: &[Value], prefix: 
             "wu" => {
                 let slot = opt_i(op, "slot").unwrap_or(0) as usize;
                 let n = opt_i(op, "n").unwrap_or(1);
-                if slot == 0 { ep.send_wu(0, n); }
+                let times = opt_i(op, "times").unwrap_or(1);
+                if times > 1 {
+                    // a burst of identical WINDOW_UPDATEs in one write
+                    let sid = if slot == 0 { Some(0) } else { ep.slots.get(slot - 1).copied() };
+                    if let Some(sid) = sid {
+                        let mut buf = Vec::new();
+                        for _ in 0..times { buf.extend_from_slice(&ep.note_wu(sid, n).encode()); }
+                        ep.c.send_raw(&buf);
+                    }
+                }
+                else if slot == 0 { ep.send_wu(0, n); }
                 else if let Some(&sid) = ep.slots.get(slot - 1) {
                     // a WINDOW_UPDATE on a stream that is finished is legal but says nothing: skip it
                     if matches!(ep.st[&sid].sst, Half::Wait | Half::Open) { ep.send_wu(sid, n); }
@@ -592,7 +688,7 @@ fn run_ops<S: Read + Write + SetTimeout>(ep: &mut Ep<S>, ops: &[Value], prefix: 
                 if let Some(n) = opt_i(op, "rcvbuf") { if raw_fd >= 0 { set_rcvbuf(raw_fd, n as i32); } }
                 std::thread::sleep(Duration::from_millis(opt_i(op, "ms").unwrap_or(50) as u64));
             }
-            "ping" => { ep.c.send(&Frame::ping(*b"c14-ping", false)); }
+            "ping" => { ep.burst += 1; ep.c.send(&Frame::ping(*b"c14-ping", false)); }
             "reap-wait" => {
                 // grant nothing: the window-stall reaper is expected to cancel the blocked stream
                 let until = Instant::now() + ep.cfg.reap_after.unwrap_or(Duration::from_secs(1)) * 8 + Duration::from_secs(10);
@@ -761,6 +857,7 @@ struct Shared {
     reap_s: u64,
     out_server: Mutex<std::fs::File>,
     out_client: Mutex<std::fs::File>,
+    out_inconclusive: Mutex<std::fs::File>,
     results: Mutex<Vec<Value>>,
     quick: bool,
 }
@@ -774,6 +871,9 @@ fn ep_cfg(sc: &Value, sh: &Shared, who: &str) -> EpCfg {
         up_chunk: opt_i(p, "up_chunk").unwrap_or(16_384).clamp(1, 16_384) as usize,
         pad: opt_i(p, "pad").unwrap_or(0).clamp(0, 255) as u8,
         reap_after: if sc["listener"] == "reap" { Some(Duration::from_secs(sh.reap_s)) } else { None },
+        unpaced: p.get("unpaced").and_then(|x| x.as_bool()).unwrap_or(false),
+        no_stall: who == "driver",
+        abort: None,
     }
 }
 
@@ -784,6 +884,7 @@ fn finish_run<S: Read + Write + SetTimeout>(ep: &mut Ep<S>, w: Wait, sh: &Shared
             if complete || (!ep.sozu_is_server && requests_ok) { ep.log(json!({"ev": "Done"})); "done" } else { "inconclusive" }
         }
         Wait::Stall => "stall",
+        Wait::Garbled => "garbled",
         // sozu closed the connection: expected for a backend connection once its frontend session is gone
         Wait::Closed => {
             if complete || ep.sozu_is_server || requests_ok { ep.log(json!({"ev": "SozuEof"})); "closed" } else { "inconclusive" }
@@ -797,6 +898,13 @@ fn finish_run<S: Read + Write + SetTimeout>(ep: &mut Ep<S>, w: Wait, sh: &Shared
         let f = if ep.sozu_is_server { &sh.out_server } else { &sh.out_client };
         let mut g = f.lock().unwrap();
         for l in &ep.ev { let _ = writeln!(g, "{}", l); }
+    } else {
+        // kept aside for diagnosis, never validated
+        let mut g = sh.out_inconclusive.lock().unwrap();
+        for l in &ep.ev { let _ = writeln!(g, "{}", l); }
+        let _ = writeln!(g, "{}", json!({"ev": "inconclusive", "run": ep.run, "wait": format!("{:?}", w), "eof": ep.c.eof, "io_error": ep.c.io_error,
+                                          "owes": ep.sozu_owes(), "conn_win": ep.conn_win, "pend": ep.pend.len(), "buffered": ep.c.fb.buf.len(),
+                                          "head": ep.c.fb.buf.iter().take(24).map(|b| format!("{b:02x}")).collect::<String>()}));
     }
     sh.results.lock().unwrap().push(res);
 }
@@ -822,6 +930,7 @@ fn scenario_back(sc: &Value, sh: &Shared, listener: TcpListener, prefix: String)
     let overall = Instant::now() + Duration::from_millis(opt_i(sc, "deadline_ms").unwrap_or(60_000) as u64);
     let stop = Arc::new(AtomicBool::new(false));
     let requests_ok = Arc::new(AtomicBool::new(false));
+    let abort = Arc::new(AtomicBool::new(false));
     let ops = sc["peer"]["ops"].as_array().cloned().unwrap_or_default();
     let live = Arc::new(AtomicUsize::new(0));
     std::thread::scope(|scope| {
@@ -835,7 +944,7 @@ fn scenario_back(sc: &Value, sh: &Shared, listener: TcpListener, prefix: String)
                         s.set_nonblocking(false).ok();
                         s.set_nodelay(true).ok();
                         if let Some(n) = opt_i(&sc["peer"], "rcvbuf") { set_rcvbuf(s.as_raw_fd(), n as i32); }
-                        let (ops, stop, live, prefix, requests_ok) = (ops.clone(), stop.clone(), live.clone(), prefix.clone(), requests_ok.clone());
+                        let (ops, stop, live, prefix, requests_ok, abort) = (ops.clone(), stop.clone(), live.clone(), prefix.clone(), requests_ok.clone(), abort.clone());
                         live.fetch_add(1, Ordering::SeqCst);
                         handles.push(scope.spawn(move || {
                             let fd = s.as_raw_fd();
@@ -843,6 +952,7 @@ fn scenario_back(sc: &Value, sh: &Shared, listener: TcpListener, prefix: String)
                             let w = if ep.c.read_client_preface(Duration::from_secs(20)) {
                                 run_ops(&mut ep, &ops, &prefix, overall, Some(&stop), fd)
                             } else { Wait::Inconclusive };
+                            if matches!(w, Wait::Stall | Wait::Garbled | Wait::Inconclusive) { abort.store(true, Ordering::SeqCst); }
                             finish_run(&mut ep, w, sh, sc, "peer", requests_ok.load(Ordering::SeqCst));
                             live.fetch_sub(1, Ordering::SeqCst);
                         }));
@@ -874,7 +984,9 @@ fn scenario_back(sc: &Value, sh: &Shared, listener: TcpListener, prefix: String)
             match h2_tls_client(sh.tls, "localhost", Duration::from_secs(20)) {
                 Ok(conn) => {
                     let fd = conn.s.sock.as_raw_fd();
-                    let mut drv = Ep::new(conn.s, true, sh.recv_conn, ep_cfg(sc, sh, "driver"), sc["label"].as_str().unwrap_or(""), sc["id"].as_u64().unwrap_or(0));
+                    let mut dcfg = ep_cfg(sc, sh, "driver");
+                    dcfg.abort = Some(abort.clone());
+                    let mut drv = Ep::new(conn.s, true, sh.recv_conn, dcfg, sc["label"].as_str().unwrap_or(""), sc["id"].as_u64().unwrap_or(0));
                     drv.c.send_raw(PREFACE);
                     let mut dops = vec![json!({"op": "settings", "initWin": 1 << 24}), json!({"op": "wu", "slot": 0, "n": 1 << 28})];
                     for st in &streams { dops.push(json!({"op": "open", "down": st["down"], "up": st["up"]})); }
@@ -944,7 +1056,7 @@ fn random_scenario(r: &mut StdRng, id: u64, thorough: bool) -> Value {
         if r.random_range(0..2) == 0 { ops.push(json!({"op": "sync"})); }
     }
     if r.random_range(0..4) == 0 {
-        ops.push(json!({"op": "pause", "ms": pick(r, &[30i64, 100, 300]), "rcvbuf": 4096}));
+        ops.push(json!({"op": "pause", "ms": pick(r, &[30i64, 100, 300]), "rcvbuf": 131_072}));
         if r.random_range(0..2) == 0 { ops.push(json!({"op": "ping"})); }
         if r.random_range(0..2) == 0 { ops.push(json!({"op": "settings", "initWin": pick(r, &init_wins), "maxFrame": pick(r, &frames)})); }
     }
@@ -964,7 +1076,9 @@ fn fixed_scenarios(mut id: u64, thorough: bool) -> Vec<Value> {
     let mut add = |label: &str, kind: &str, front: &str, listener: &str, streams: Value, ops: Value, v: &mut Vec<Value>| {
         id += 1;
         v.push(json!({"id": id, "kind": kind, "front": front, "listener": listener, "label": label, "streams": streams,
-                      "peer": {"ops": ops, "up_chunk": 16_384, "pad": 0}, "driver": {"up_chunk": 16_384}, "deadline_ms": 120_000}));
+                      "peer": {"ops": ops, "pad": 0, "rcvbuf": if label.contains("slow-reader") { json!(131_072) } else { Value::Null },
+                               "unpaced": label.contains("unpaced"), "up_chunk": if label.contains("tiny-upload") { 1 } else { 16_384 }},
+                      "driver": {"up_chunk": 16_384}, "deadline_ms": 120_000}));
     };
     // download larger than every default window, generous client: sozu must keep going well past 65 535
     add("fixed:front:download-3MB", "front", "h2", "tls", json!([{"down": 3_000_000, "up": 0}]),
@@ -1011,6 +1125,25 @@ fn fixed_scenarios(mut id: u64, thorough: bool) -> Vec<Value> {
         json!([{"op": "settings", "initWin": 1000, "maxStreams": 1}, {"op": "finish", "mode": "burst", "k": 10_000}]), &mut v);
     add("fixed:back:download-3MB", "back", "h1", "h1", json!([{"down": 3_000_000, "up": 0}]),
         json!([{"op": "settings", "maxStreams": 100}, {"op": "finish", "mode": "eager"}]), &mut v);
+    // slow readers: the peer stops reading while windows are wide open, so sozu's writes block half-way through a
+    // frame; control traffic (PING, SETTINGS that sozu must acknowledge) arrives meanwhile.  Whatever sozu then
+    // writes must still be a well-formed frame sequence inside the limits.
+    add("fixed:front:slow-reader", "front", "h2", "tls", json!([{"down": 6_000_000, "up": 0}, {"down": 2_000_000, "up": 0}]),
+        json!([{"op": "settings", "initWin": 1 << 30, "maxFrame": 65_536}, {"op": "wu", "slot": 0, "n": 1 << 30}, {"op": "sync"},
+               {"op": "open", "down": 6_000_000, "up": 0}, {"op": "open", "down": 2_000_000, "up": 0}, {"op": "await", "bytes": 100_000},
+               {"op": "pause", "ms": 400, "rcvbuf": 131_072}, {"op": "ping"}, {"op": "settings", "maxFrame": 16_384}, {"op": "pause", "ms": 300},
+               {"op": "ping"}, {"op": "settings", "initWin": 1 << 20}, {"op": "pause", "ms": 200}, {"op": "finish", "mode": "eager"}]), &mut v);
+    add("fixed:back:slow-reader", "back", "h1", "h1", json!([{"down": 5, "up": 6_000_000}]),
+        json!([{"op": "settings", "initWin": 1 << 30, "maxFrame": 65_536, "maxStreams": 100}, {"op": "wu", "slot": 0, "n": 1 << 30},
+               {"op": "await", "bytes": 100_000, "streams": 1}, {"op": "pause", "ms": 400}, {"op": "ping"}, {"op": "settings", "maxFrame": 16_384},
+               {"op": "pause", "ms": 300}, {"op": "ping"}, {"op": "settings", "initWin": 1 << 20}, {"op": "pause", "ms": 200},
+               {"op": "finish", "mode": "eager"}]), &mut v);
+    // open finding LoopBudget: thousands of small frames back to back (legal) use up Mux::ready's loop budget
+    add("fixed:front:unpaced-wu-burst", "front", "h2", "tls", json!([{"down": 7_000, "up": 0}]),
+        json!([{"op": "settings", "initWin": 0}, {"op": "sync"}, {"op": "open", "down": 7_000, "up": 0}, {"op": "sync"},
+               {"op": "wu", "slot": 1, "n": 1, "times": 7_000}, {"op": "finish", "mode": "burst", "k": 1 << 20}]), &mut v);
+    add("fixed:front:unpaced-tiny-upload", "front", "h2", "tls", json!([{"down": 10, "up": 30_000}]),
+        json!([{"op": "settings"}, {"op": "sync"}, {"op": "open", "down": 10, "up": 30_000}, {"op": "finish", "mode": "eager"}]), &mut v);
     // the window-stall reaper (listener with a 1 s stream idle timeout): one stream starved, the other served
     add("fixed:front:reaper", "front", "h2", "reap", json!([{"down": 200_000, "up": 0}]),
         json!([{"op": "settings", "initWin": 1000}, {"op": "sync"}, {"op": "open", "down": 200_000, "up": 0}, {"op": "sync"}, {"op": "reap-wait"}]), &mut v);
@@ -1019,6 +1152,31 @@ fn fixed_scenarios(mut id: u64, thorough: bool) -> Vec<Value> {
             json!([{"op": "settings", "initWin": 65_535, "maxFrame": 65_536}, {"op": "sync"}, {"op": "open", "down": 20_000_000, "up": 0}, {"op": "finish", "mode": "burst", "k": 1 << 20}]), &mut v);
     }
     v
+}
+
+/// debugging aid: same as vh::worker::Worker::start, with sozu's logger (thread-local) started on the worker thread
+fn start_worker_logging(name: &str, config: sozu_command_lib::proto::command::ServerConfig, level: String) -> Worker {
+    use std::os::unix::prelude::IntoRawFd;
+    use sozu_command_lib::{channel::Channel, scm_socket::{Listeners, ScmSocket}, state::ConfigState};
+    use sozu_command_lib::proto::command::{WorkerRequest, WorkerResponse};
+    let (a, b) = mio::net::UnixStream::pair().expect("unix pair");
+    let (cmd_m2w, cmd_w2m): (Channel<WorkerRequest, WorkerResponse>, Channel<WorkerResponse, WorkerRequest>) =
+        Channel::generate(config.command_buffer_size, config.max_command_buffer_size).expect("channel");
+    for fd in [a.as_raw_fd(), b.as_raw_fd()] {
+        unsafe { let old = libc::fcntl(fd, libc::F_GETFD); libc::fcntl(fd, libc::F_SETFD, old & !1); }
+    }
+    let scm_m2w = ScmSocket::new(a.into_raw_fd()).expect("scm");
+    let scm_w2m = ScmSocket::new(b.into_raw_fd()).expect("scm");
+    scm_m2w.send_listeners(&Listeners::default()).expect("send listeners");
+    let state = ConfigState::new();
+    let (thread_config, initial_state, thread_scm) = (config.clone(), state.produce_initial_state(), scm_w2m.to_owned());
+    let job = std::thread::Builder::new().name(name.to_string()).spawn(move || {
+        let _ = sozu_command_lib::logging::setup_default_logging(false, &level, "C14");
+        let mut server = sozu_lib::server::Server::try_new_from_config(cmd_w2m, thread_scm, thread_config, initial_state, false).expect("worker");
+        server.run();
+    }).expect("spawn");
+    Worker { name: name.to_string(), config, state, scm_main_to_worker: scm_m2w, scm_worker_to_main: scm_w2m, channel: cmd_m2w,
+             next_id: 0, job: Some(job), backlog: Vec::new() }
 }
 
 fn main() {
@@ -1052,7 +1210,10 @@ fn main() {
     // ---- the worker
     let t = Duration::from_secs(30);
     let cfg = server_config(|fc| { fc.buffer_size = Some(buffer_size); fc.min_buffers = Some(4); fc.max_buffers = Some(2000); });
-    let mut w = Worker::start("c14", cfg, &Default::default(), Default::default());
+    let mut w = match arg("--sozu-log") {
+        Some(level) => start_worker_logging("c14", cfg, level),
+        None => Worker::start("c14", cfg, &Default::default(), Default::default()),
+    };
     let tls = free_addr();
     let tls_reap = free_addr();
     let h1 = free_addr();
@@ -1084,6 +1245,7 @@ fn main() {
         let id = sc["id"].as_u64().unwrap_or(0);
         let addr = free_addr();
         let l = TcpListener::bind(addr).expect("backend listener");
+        if let Some(n) = opt_i(&sc["peer"], "rcvbuf") { set_rcvbuf(l.as_raw_fd(), n as i32); }
         let cid = format!("b{id}");
         let prefix = format!("/b{id}");
         let cl = Cluster { cluster_id: cid.clone(), http2: Some(true), ..Default::default() };
@@ -1098,6 +1260,7 @@ fn main() {
         tls, tls_reap, h1, recv_conn: 1_048_576, reap_s,
         out_server: Mutex::new(std::fs::File::create(&out_server).expect("out-server")),
         out_client: Mutex::new(std::fs::File::create(&out_client).expect("out-client")),
+        out_inconclusive: Mutex::new(std::fs::File::create(format!("{out_server}.inconclusive")).expect("out-inconclusive")),
         results: Mutex::new(Vec::new()),
         quick: !thorough,
     };
@@ -1131,6 +1294,7 @@ fn main() {
     let count = |o: &str| results.iter().filter(|r| r["outcome"] == o).count();
     vh::util::emit(&json!({"kind": "summary", "scenarios": scenarios.len(), "runs": results.iter().filter(|r| r["kind"] == "run").count(),
         "done": count("done"), "stall": count("stall"), "closed": count("closed"), "inconclusive": count("inconclusive"),
+        "garbled": count("garbled"),
         "worker_panic": worker_panic, "wall_s": t0.elapsed().as_secs_f64(),
         "data_bytes": results.iter().map(|r| r["data_bytes"].as_i64().unwrap_or(0)).sum::<i64>()}));
     std::process::exit(0);
